@@ -36,7 +36,7 @@ def _all_configs():
 
 
 CONFIGS = _all_configs()
-HISTORIES = {"quick": 500, "thorough": 20000}
+HISTORIES = {"quick": 500, "thorough": 200000}
 
 
 def _close(a, b):
